@@ -69,6 +69,9 @@ Method(o, m, args) == N("method", m, StrV(Code(m)), <<o, args>>)
 MemberN(o, m) == N("member", m, StrV(Code(m)), <<o>>)
 Compr(kind, val, id, what, le, cond) == N("compr", kind, Null, <<val, id, what, le, cond>>)
 Index(c, i) == N("index", "", Null, <<c, i>>)
+DAsg(ids, e) == N("dassign", "", Null, <<ids, e>>)     \* [x, y] = e
+DDef(ids, e) == N("ddef", "", Null, <<ids, e>>)        \* def [x, y] = e
+NullL == Lit(Null)
 Compr2(form, kind, val, id1, w1, l1, id2, w2, l2, cond) == N("compr2", form, Null, <<kind, val, id1, w1, l1, id2, w2, l2, cond>>)
 Prog(stmts) == Do(stmts)                        \* rendered as a bare top-level block
 
@@ -393,27 +396,35 @@ ArgLists == << << >>, <<Arg(I(1))>>, <<Arg(I(1)), Arg(I(2))>>, <<Arg(I(1)), Arg(
                <<Arg(I(7)), NArg("b", I(2)), NArg("c", I(3))>>,
                <<Arg(I(7)), Arg(I(8)), Arg(I(9)), NArg("b", I(2))>>,
                <<Arg(I(7)), Spread(MapN(<< <<S("a"), I(1)>>, <<S("b"), I(2)>> >>))>>,
-               <<Spread(ListN(<<I(7), I(8)>>)), NArg("a", I(1)), NArg("c", I(3))>> >>
+               <<Spread(ListN(<<I(7), I(8)>>)), NArg("a", I(1)), NArg("c", I(3))>>,
+               \* a NULL that is passed is an argument like any other: it is bound, the default is not used
+               <<Arg(NullL)>>, <<Arg(I(1)), Arg(NullL)>>, <<NArg("b", NullL), Arg(I(1))>>,
+               <<Spread(ListN(<<I(1), NullL>>))>>, <<Arg(I(1)), Spread(MapN(<< <<S("b"), NullL>> >>))>> >>
 BodyOf(sig) == ListN([i \in 1..Len(sig) |-> Var(sig[i].name)])
 A1Params == { <<"a1", sg, al>> : sg \in Idx(Sig), al \in Idx(ArgLists) }
 A1Build(p) == Prog(<<Def("k", I(100)), Def("t", SetN(<<I(2), I(1)>>)),
                     Def("f", Fn(Sig[p[2]], Do(<<Def("k", I(50)), BodyOf(Sig[p[2]])>>))),
                     Blk(<<Log(Call(Var("f"), ArgLists[p[3]]))>>, << <<All, Log(S("c"))>> >>, << >>)>>)
 \* <<"a2", al>>: pipeline;  <<"a3", o, m, al>>: methods and prototype chains
-A2l == << << >>, <<Arg(I(2))>>, <<NArg("b", I(3))>> >>
+A2l == << << >>, <<Arg(I(2))>>, <<NArg("b", I(3))>>, <<Arg(NullL)>> >>
 A2Params == { <<"a2", al>> : al \in Idx(A2l) }
 A2Build(p) == Prog(<<Def("f", Fn(<<Param("a"), ParamD("b", I(7))>>, ListN(<<Var("a"), Var("b")>>))),
                     Log(Pipe(I(1), Var("f"), A2l[p[2]]))>>)
 Obj1 == ObjN(<< <<"n", I(1)>>, <<"get", Fn(<<Param("p"), ParamD("k", I(0))>>, Bin("+", MemberN(Var("p"), "n"), Var("k")))>> >>)
-A3o == << "a", "b", "c" >>
+\* receivers: the object itself, one and two prototype links away, three links away (r), and an EXPRESSION with an
+\* effect (the receiver is evaluated once: the object it yields is looked up in and passed on)
+A3o == << Var("a"), Var("b"), Var("c"), Var("r"), Call(Var("h"), << >>) >>
 A3m == << "get", "inc" >>
-A3l == << << >>, <<Arg(I(10))>>, <<NArg("k", I(20))>> >>
+A3l == << << >>, <<Arg(I(10))>>, <<NArg("k", I(20))>>, <<Arg(NullL)>> >>
 A3Params == { <<"a3", o, m, al>> : o \in Idx(A3o), m \in Idx(A3m), al \in Idx(A3l) }
 A3Build(p) == Prog(<<Def("a", Obj1),
                     Def("b", ObjN(<< <<"_proto_", Var("a")>>, <<"n", I(5)>> >>)),
                     Def("c", ObjN(<< <<"_proto_", Var("b")>> >>)),
-                    Blk(<<Log(Method(Var(A3o[p[2]]), A3m[p[3]], A3l[p[4]]))>>, << <<All, Log(S("c"))>> >>, << >>),
-                    Log(MemberN(Var(A3o[p[2]]), "n"))>>)
+                    Def("r", ObjN(<< <<"_proto_", Var("c")>>, <<"n", I(9)>> >>)),
+                    Def("h", Fn(<< >>, Do(<<Log(I(77)), Var("b")>>))),
+                    Blk(<<Log(Method(A3o[p[2]], A3m[p[3]], A3l[p[4]]))>>, << <<All, Log(S("c"))>> >>, << >>),
+                    Log(MemberN(IF p[2] = 5 THEN Var("b") ELSE A3o[p[2]], "n")),
+                    Log(MemberN(Var("r"), "n"))>>)
 
 \* <<"s6", k>>: defaults per call, four scope levels, closures over variables,
 \* composition, mutual recursion, handler selection across frames
@@ -460,14 +471,37 @@ S6Progs == <<
          Log(Call(Var("f"), << >>)), Log(Var("x"))>>) >>
 S6Params == { <<"s6", k>> : k \in Idx(S6Progs) }
 
-ScopeParams == S6Params \cup S1Params \cup S2Params \cup S3Params \cup S4Params \cup S5Params \cup A1Params \cup A2Params \cup A3Params
+\* <<"s7", k>>: destructuring assignment updates the nearest bindings (never creates), destructuring def
+\* binds in the current frame; missing items are NULL; sets are taken in ascending order
+S7Progs == <<
+  Prog(<<Def("a", I(1)), Def("b", I(2)),
+         Def("f", Fn(<< >>, Do(<<DAsg(<<"a", "b">>, ListN(<<I(10), I(20)>>)), Bin("+", Var("a"), Var("b"))>>))),
+         Log(Call(Var("f"), << >>)), Log(Var("a")), Log(Var("b"))>>),
+  Prog(<<Def("g", Fn(<< >>, Do(<<Def("n", I(0)), Fn(<< >>, Do(<<DAsg(<<"n">>, ListN(<<Bin("+", Var("n"), I(1))>>)), Var("n")>>))>>))),
+         Def("c", Call(Var("g"), << >>)), Def("k", Call(Var("g"), << >>)),
+         Log(Call(Var("c"), << >>)), Log(Call(Var("c"), << >>)), Log(Call(Var("k"), << >>))>>),
+  Prog(<<DDef(<<"x", "y">>, ListN(<<I(1)>>)), Log(Var("x")), Log(Var("y")),
+         Blk(<<DAsg(<<"x", "zq">>, ListN(<<I(5), I(6)>>))>>, << <<All, Log(I(9))>> >>, << >>), Log(Var("x"))>>),
+  Prog(<<Def("x", I(1)), Def("y", I(2)),
+         Def("f", Fn(<< >>, Do(<<DDef(<<"x", "y">>, SetN(<<I(4), I(3)>>)), Log(Var("y")), Var("x")>>))),
+         Log(Call(Var("f"), << >>)), Log(Var("x")), Log(Var("y"))>>),
+  Prog(<<Def("x", I(1)), Blk(<<DAsg(<<"x">>, I(5))>>, << <<All, Log(I(9))>> >>, << >>),
+         Blk(<<DDef(<<"y">>, S("a"))>>, << <<All, Log(I(8))>> >>, << >>), Log(Var("x")),
+         Def("f", Fn(<<Param("a")>>, Do(<<DAsg(<<"a", "x">>, ListN(<<Var("x"), Var("a")>>)), ListN(<<Var("a"), Var("x")>>)>>))),
+         Log(Call(Var("f"), <<Arg(I(7))>>)), Log(Var("x"))>>),
+  Prog(<<Def("x", I(1)), Def("f", Fn(<< >>, Do(<<Asg("x", Bin("+", Var("x"), I(10))), Asg("x", Bin("*", Var("x"), I(2))),
+                                               Asg("x", Bin("-", Var("x"), Bin("-", Var("x"), I(3)))), Var("x")>>))),
+         Log(Call(Var("f"), << >>)), Log(Var("x"))>>) >>
+S7Params == { <<"s7", k>> : k \in Idx(S7Progs) }
+
+ScopeParams == S7Params \cup S6Params \cup S1Params \cup S2Params \cup S3Params \cup S4Params \cup S5Params \cup A1Params \cup A2Params \cup A3Params
 
 Build(p) ==
   CASE p[1] = "e6" -> E6Progs[p[2]] [] p[1] = "e5" -> E5Build(p) [] p[1] = "e4" -> E4Build(p) [] p[1] = "e1" -> E1Build(p) [] p[1] = "e2" -> E2Build(p) [] p[1] = "e3" -> E3Build(p)
     [] p[1] = "l1" -> L1Build(p) [] p[1] = "l0" -> L0Build(p) [] p[1] = "l2" -> L2Build(p)
     [] p[1] = "l3" -> L3Progs[p[2]] [] p[1] = "w1" -> W1Build(p) [] p[1] = "if" -> IfBuild(p)
     [] p[1] = "c2" -> C2Build(p) [] p[1] = "l4" -> L4Build(p) [] p[1] = "l5" -> L5Progs[p[2]]
-    [] p[1] = "s6" -> S6Progs[p[2]]
+    [] p[1] = "s6" -> S6Progs[p[2]] [] p[1] = "s7" -> S7Progs[p[2]]
     [] p[1] = "cp" -> CpBuild(p) [] p[1] = "mc" -> McBuild(p)
     [] p[1] = "s1" -> S1Build(p) [] p[1] = "s2" -> S2Build(p) [] p[1] = "s3" -> S3Build(p)
     [] p[1] = "s4" -> S4Build(p) [] p[1] = "s5" -> S5Build(p)
